@@ -23,43 +23,43 @@ CHECKS = {
     "C03": dict(
         engine="edits", category="exploration", design_ref="DESIGN.md §4.1",
         technique="deterministic simulation: seeded edit/query/rejection/poison histories on one Model, refinement against a model freshly rebuilt from its own content after every op; ddmin-minimised replay files",
-        text="Seeded search over histories of public Model edits (all single and batch mutators, ~25% deliberately rejected, poisoned functions that kill a query while the memo is being built, dangling/cyclic content) interleaved with queries; after every op the edited model must refine a model freshly rebuilt from its own content (same op outcome, same content, same ids, same query answers), a refused edit must change nothing, names must stay disjoint and re-usable. Sampling, not proof; ~2M histories/hour.",
+        text="Seeded search over histories of public Model edits (all single and batch mutators, ~25% deliberately rejected, poisoned functions that kill a query while the memo is being built, dangling/cyclic content) interleaved with queries; after every op the edited model must refine a model freshly rebuilt from its own content (same op outcome, same content, same ids, same query answers), a refused edit must change nothing, names must stay disjoint and re-usable. Sampling, not proof; ~2M histories/hour. Added later: a quarter of the runs hand the model EPHEMERAL function objects (a new function object per use that only the model refers to), so that anything remembered by id() across edits goes stale; caller-kept Parameter/Variable containers; the caller scribbles on dicts that queries return.",
         note="Trusted: rebuild through public add_* from get_raw_* copies is 'a freshly built model with the same content'; Model._data read directly (no public getter). Cannot see wrong evaluation that a fresh model shares (C01/C02/C13).",
     ),
     "C04": dict(
         engine="simtime", category="exploration", design_ref="DESIGN.md §4.2",
         technique="deterministic simulation: seeded call histories (legal and deliberately illegal continuations, overrides, parameter changes, steady-state runs, clears) on one Simulator in dyadic model time, checked op by op against a reference model (T, y, params) with closed-form piecewise solutions; integrator seam (real Scipy / exact stub)",
-        text="Seeded search over histories of simulate / time-course / protocol calls interleaved with parameter updates, variable overrides, steady-state runs, clear_results and get_result on ONE Simulator over closed-form families (incl. a non-autonomous one that distinguishes absolute from integrator-relative time). After every op: refusal iff requested end <= time reached, strictly increasing absolute axis, every requested later point exactly once, history never rewritten, states equal the closed-form solution from the previous segment's final state (override applied) under the parameters in force, recorded segment parameters right.",
+        text="Seeded search over histories of simulate / time-course / protocol calls interleaved with parameter updates, variable overrides, steady-state runs, clear_results and get_result on ONE Simulator over closed-form families (incl. a non-autonomous one that distinguishes absolute from integrator-relative time). After every op: refusal iff requested end <= time reached, strictly increasing absolute axis, every requested later point exactly once, history never rewritten, states equal the closed-form solution from the previous segment's final state (override applied) under the parameters in force, recorded segment parameters right. Added later: faults in which the solver itself raises (also in a later protocol step) and the caller goes on with the same simulator; the very first run failing and recovery by clear; view reads between segments, also interrupted half-way (KeyboardInterrupt at the k-th model evaluation); very short stretches at large clocks framed by overrides; a family whose stoichiometric coefficient is computed from a parameter.",
         note="Closed-form oracle (matrix exponential from the family spec). Real Scipy runs judged at 2e-5*(1+|x|), ExactLinear stub runs at 1e-9. After an integration failure nothing is demanded until clear_results. Whether a reported steady state is steady is C15's question, not charged here.",
     ),
     "C09": dict(
         engine="scans", category="exploration", design_ref="DESIGN.md §4.3",
         technique="deterministic simulation of schedules: each seeded scan input is executed sequentially (shared model) and under a simulated process pool (pickled payloads, seeded worker assignment / completion order, W in 1..16, optional worker death), lazily evaluated views read in a seeded order, content-keyed failing rows; every row compared with an independent simulation of a fresh model",
-        text="For scan.steady_state/time_course/protocol/protocol_time_course and mc.* (incl. mc.scan_steady_state) over models with a derived variable, a readout and a parameter defined by an initial assignment over the initial values: each row's variables and fluxes must equal a separate simulation of a fresh model with that row's values, sit at the row's position under the row's index label, be identical across all schedules (sequential, pool with any worker count and completion order, rows <,=,> workers) and read orders; a failing row (poisoned integrator) must read as NaN state on the grid of a successful row without disturbing its neighbours.",
+        text="For scan.steady_state/time_course/protocol/protocol_time_course and mc.* (incl. mc.scan_steady_state) over models with a derived variable, a readout and a parameter defined by an initial assignment over the initial values: each row's variables and fluxes must equal a separate simulation of a fresh model with that row's values, sit at the row's position under the row's index label, be identical across all schedules (sequential, pool with any worker count and completion order, rows <,=,> workers) and read orders; a failing row (poisoned integrator) must read as NaN state on the grid of a successful row without disturbing its neighbours. Added later: scans with a cache an earlier scan partly filled, caller-kept objects passed to several scans, and the assignment-defined parameter itself as a scanned column.",
         note="Oracle = MxlPy's own Simulator on a fresh factory model nobody else touches. In-process SimPool shares module state with the parent (stub-fidelity self-test compares it with real pebble). Nothing is demanded of flux values of a NaN placeholder (state-independent rates legitimately evaluate).",
     ),
     "C10": dict(
         engine="views", category="exploration", design_ref="DESIGN.md §4.4",
         technique="deterministic simulation of reader/mutator interleavings on shared state: seeded segment histories, then seeded sequences of view reads (all flag / concatenated / normalise combinations, repeats) interleaved with post-hoc parameter mutations of the shared model, first lazy read before or after a mutation; per-row oracle from a fresh model under independently recorded segment parameters",
-        text="For seeded multi-segment results (parameter updates, overrides and protocol steps between segments; models with derived variable/parameter, readout, parameter-defined and state-dependent computed coefficients, a surrogate): every public view equals, row by row, the values a fresh model gives at that row's state and time under its segment's parameters - also when the user changed the model's parameters after the simulation and before (or between) reads; N(state) x reported fluxes = reported derivatives; concatenated = per-segment list stacked; producers/consumers = fluxes with positive/negative coefficient, scaled by the row's coefficient on request; normalise divides by the scalar / per-segment / per-row factor; a repeated read equals the first bit for bit.",
+        text="For seeded multi-segment results (parameter updates, overrides and protocol steps between segments; models with derived variable/parameter, readout, parameter-defined and state-dependent computed coefficients, a surrogate): every public view equals, row by row, the values a fresh model gives at that row's state and time under its segment's parameters - also when the user changed the model's parameters after the simulation and before (or between) reads; N(state) x reported fluxes = reported derivatives; concatenated = per-segment list stacked; producers/consumers = fluxes with positive/negative coefficient, scaled by the row's coefficient on request; normalise divides by the scalar / per-segment / per-row factor; a repeated read equals the first bit for bit. Added later: two result objects taken from one simulator at different stages and read in turn, the simulator continuing (successfully or with a failing segment) after a result was taken, reads INTERRUPTED inside the model evaluation and repeated, and a caller that rescales returned frames in place.",
         note="Model evaluation on a fresh model is trusted (C01/C13). Segment parameters are recorded by the harness itself, not read from the result. Coefficient signs fixed across segments; >= 2 rows per segment.",
     ),
     "C14": dict(
         engine="simtime", category="exploration", design_ref="DESIGN.md §4.2 (C14 additions)",
         technique="deterministic simulation: seeded protocol layouts (1-4 steps, unequal durations, repeated values, ragged steps) started on fresh and continued simulators (after simulate, override, steady state, clear), reference model with exact switching times; exact point-set oracle for the time-course form; per-row flux oracle",
-        text="Same machine as C04 with a protocol-heavy op mix: step i's values must govern (cum_{i-1}, cum_i] shifted by the start time, also after overrides / steady-state runs / clears; the time-course form must return exactly start + requested-inside + boundaries, each once; fluxes of a row inside step i must equal the rate law at that row's state under step i's values. Families F1/F4 make every later state depend on every switching time.",
+        text="Same machine as C04 with a protocol-heavy op mix: step i's values must govern (cum_{i-1}, cum_i] shifted by the start time, also after overrides / steady-state runs / clears; the time-course form must return exactly start + requested-inside + boundaries, each once; fluxes of a row inside step i must equal the rate law at that row's state under step i's values. Families F1/F4 make every later state depend on every switching time. Added later: steps that are tiny relative to the clock (1/128..1/512 at t>=100), protocols whose LATER step makes the solver raise, caller-kept protocol tables that are edited / derived / re-used, held results whose fluxes are read late.",
         note="Ragged steps (a step names only the parameters it changes) are a separate sub-check with the expectation 'unnamed parameters keep their value'. Flux views are read from a deep copy of the result so that reading cannot disturb the run.",
     ),
     "C15": dict(
         engine="steady", category="exploration", design_ref="DESIGN.md §4.2 (C15 paragraph)",
         technique="deterministic simulation with stepper fault injection: seeded steady-state searches on real Scipy with failed-step / non-finite faults injected at poll n through the scipy.integrate.ode seam, budget exhaustion on networks without steady state, relaxation-time sweep for bounded liveness in simulated time",
-        text="Decides (i) failure reporting: under injected stepper faults and on networks without steady state (accumulation, growth, non-autonomous drive, scan rows with k=0) the outcome must be a failure value / NaN row, never a state; (ii) bounded liveness in simulated time: stable networks with relaxation times 0.05..400 must report success within the 1000-poll budget. The clause 'a reported success equals the analytic steady state, fluxes balance, default/user y0, abs/rel norm' is evaluated on the same runs as plain seeded sampling.",
+        text="Decides (i) failure reporting: under injected stepper faults and on networks without steady state (accumulation, growth, non-autonomous drive, scan rows with k=0) the outcome must be a failure value / NaN row, never a state; (ii) bounded liveness in simulated time: stable networks with relaxation times 0.05..400 must report success within the 1000-poll budget. The clause 'a reported success equals the analytic steady state, fluxes balance, default/user y0, abs/rel norm' is evaluated on the same runs as plain seeded sampling. Added later: several searches on ONE simulator with parameter changes / reads / simulations / clears in between, a family whose coefficient is computed from a parameter (scans over it, models evaluated before being scanned), scans with a partly filled cache and with non-unique row labels.",
         note="Only the repo's real Scipy integrator (the loop under test lives there). Accuracy bound 1e-4*(1+|x*|) + 100*tolerance. The accuracy clause is a pure function of the input: sampled, not decided by scheduling/fault search.",
     ),
     "C17": dict(
         engine="session", category="exploration", design_ref="DESIGN.md §4.7",
         technique="deterministic simulation of one interpreter session: seeded write/tick/read/query(/pickle) histories over documents and colliding file stems, simulated file clock for the generated sources (whole-second .pyc validation), bytecode cache on/off; oracle = the same document read in isolation",
-        text="REDUCED SCOPE: only the clause 'two documents read in one session do not interfere'. Seeded sessions write 2-4 small documents to paths whose stems are distinct, equal in different directories, or collapse to one generated-module name, advance a simulated file clock by 0/0.3/1/5 s, read them into handles and query (also after a pickle round trip, as every parallel routine does) every handle at every later point; each answer must equal that of the same document read in isolation (unique stem, empty cache dir, bytecode off; equivalence with a separate process checked at start).",
+        text="REDUCED SCOPE: only the clause 'two documents read in one session do not interfere'. Seeded sessions write 2-4 small documents to paths whose stems are distinct, equal in different directories, or collapse to one generated-module name, advance a simulated file clock by 0/0.3/1/5 s, read them into handles and query (also after a pickle round trip, as every parallel routine does) every handle at every later point; each answer must equal that of the same document read in isolation (unique stem, empty cache dir, bytecode off; equivalence with a separate process checked at start). Added later: other library calls in the session (code generation of hand-written twins), document pairs differing only in an initial assignment or in a -1 vs -2, stems of 83/120 characters, torn writes of the generated module, and a caller that modifies a model it read and reads the document again.",
         note="NOT decided: that the imported model reproduces the document (pure function of the document); an error the isolated read shares is not reported. A model becoming unpicklable after re-reading the SAME document is counted, not charged (one document, not two).",
     ),
     "C18": dict(
@@ -72,12 +72,12 @@ CHECKS = {
         engine="crash", category="fault_enumeration", design_ref="DESIGN.md §4.6",
         technique="deterministic simulation with crash injection: forked process incarnations killed at every traced line of mxlpy/parallel.py and at byte offsets of every result file (torn writes), reruns compared with a cache-free reference; lockstep pool (one parked thread per task, seeded step choice) for workers in flight together, per-task timeouts and whole-process death at scheduler steps",
         text="For seeded workloads (parallelise with a logging function, scan.time_course, scan.steady_state, scan.protocol, mc.time_course; int/str/tuple/near-identical keys; results 0..70 kB; sequential or simulated pool) the histories 'no cache -> run killed at p [-> killed again] -> rerun -> rerun' are executed for EVERY line-level kill point inside mxlpy/parallel.py (exhaustive per workload), sampled kill points in all mxlpy frames, and byte-granular torn writes of every result file (whole process or single worker dies). Rerun must complete and equal the cache-free reference for every key; a further run must recompute nothing; an uninterrupted cached run must equal the reference. Also: several cached runs inside one process (caller mutates returned results, wipes and reuses the directory, an in-process interruption followed by a rerun under the same pid); and pool workloads under the lockstep back-end, where several workers are mid-write at once while the parent handles a task timeout, and where the process dies at a scheduler step with several temporaries on disk - the cached run must complete exactly when the uncached run under the same plan does, return the same keys and values, and the reruns must complete, agree and recompute nothing.",
-        note="Process-kill semantics only (what reached the OS survives; no power-loss reordering). C-level writes inside pickle.dump are interrupted only through the path seam. Lockstep workers are threads of one process (one pid): pid-dependent naming is exercised through the same-pid rerun history instead.",
+        note="A user-supplied cache (own naming, extension-sensitive writer, own reader) takes part in the transparency / no-recompute / lockstep checks only - the atomicity of a custom writer is its own business. Process-kill semantics only (what reached the OS survives; no power-loss reordering). C-level writes inside pickle.dump are interrupted only through the path seam. Lockstep workers are threads of one process (one pid): pid-dependent naming is exercised through the same-pid rerun history instead.",
     ),
     "C20": dict(
         engine="fit", category="exploration", design_ref="DESIGN.md §4.8",
         technique="deterministic simulation through the minimiser seam: a scripted candidate sequence (start point, true values, repeats, candidates whose integration is made to fail) is evaluated on the one shared model copy the routine keeps mutating; each evaluation compared with the shipped loss recomputed on a fresh model; honesty runs with the real scipy minimiser; before/after snapshots of the caller's model",
-        text="REDUCED SCOPE (the history-shaped clauses only): every residual evaluation, whatever was evaluated before it on the shared model, equals the shipped loss between the data and the prediction of a fresh model at exactly that candidate (standard scaling with the data's mean/std; parameters and initial values routed by name); a failed integration gives inf; with the real LocalScipyMinimizer the returned loss is <= the loss at the start point and equals the loss recomputed at the returned values; with copying enabled the caller's model is unchanged.",
+        text="REDUCED SCOPE (the history-shaped clauses only): every residual evaluation, whatever was evaluated before it on the shared model, equals the shipped loss between the data and the prediction of a fresh model at exactly that candidate (standard scaling with the data's mean/std; parameters and initial values routed by name); a failed integration gives inf; with the real LocalScipyMinimizer the returned loss is <= the loss at the start point and equals the loss recomputed at the returned values; with copying enabled the caller's model is unchanged. Added later: two fits in a row sharing one minimiser / settings list / p0; ragged protocols; transient faults in a later protocol step of one evaluation; joint fits whose earlier pairs bring their own loss / start state; a worker death in one evaluation of a joint fit (giving the fit up is accepted, a residual that misses a pair is not).",
         note="NOT decided: 'every shipped loss is smallest at a perfect prediction and does not reward size' - algebraic laws of seven pure functions with no schedule, fault or history in them. A real optimiser raising (values the solver refuses) is counted, not charged.",
     ),
 }
